@@ -47,7 +47,7 @@ type RConfig struct {
 	// point (the top of a retry loop); a goroutine that arrives there straight
 	// from a spin point still counts as spinning.
 	SpinFollowers map[string]bool
-	MaxSteps   int
+	MaxSteps      int
 }
 
 // ROutcome describes a finished run.
